@@ -24,7 +24,7 @@ Proof.
 Qed.
 
 Section PerOffset.
-Variables (s : str) (off : nat).
+Variables (fx : bool) (s : str) (off : nat).
 Hypothesis Hb : boundary s off.
 
 Lemma top_line_col : line_col s off = Ok (spec_line_col (before s off)).
@@ -76,14 +76,14 @@ Proof.
 Qed.
 
 Lemma top_render_span :
-  KnownClass_span (before s off) (mid s off b) (after s b) = false ->
-  span_render_ok (before s off) (mid s off b) (after s b).
+  KnownClass_span fx (before s off) (mid s off b) (after s b) = false ->
+  span_render_ok fx (before s off) (mid s off b) (after s b).
 Proof.
   destruct (two_boundaries s off b Hb Hb2 Hle) as (p & m & q & _ & _ & _ & -> & _ & -> & ->).
   apply span_render_correct.
 Qed.
 
-Lemma top_render_span_no_panic msg : exists out, render_span s (off, b) msg = Ok out.
+Lemma top_render_span_no_panic msg : exists out, render_span fx s (off, b) msg = Ok out.
 Proof.
   destruct (two_boundaries s off b Hb Hb2 Hle) as (p & m & q & -> & -> & -> & _). apply render_span_no_panic.
 Qed.
